@@ -260,7 +260,9 @@ func dischargeOne(ob *Oblig, mode string, solvers []string, timeout time.Duratio
 		}
 		var g *Term
 		if ob.Kind != "reach" {
+			tr.inGoal = true
 			g = tr.boolean(ob.Goal)
+			tr.inGoal = false
 		}
 		if ob.SelfCheck {
 			if err := selfCheckInt(ob, tr, selfCheckSamples, runSeed); err != nil {
